@@ -16,4 +16,9 @@ CONTROLS = [
     dict(name="set_default_doc turns the NoneStr default of the caller's param dict into None (seed C04_e shape)",
          edits=[("cdd/shared/defaults_utils.py", "        # if _param[\"default\"] == NoneStr: _param[\"default\"] = None\n", "        if _param[\"default\"] == \"```(None)```\":\n            _param[\"default\"] = None\n")],
          expect=r"set_default_doc/ensures\[5\]"),
+    dict(name="ast_parse_fix builds a Name for every bracket-less type string (seed C04_g shape: `int | None`, dotted names)",
+         edits=[("cdd/shared/emit/utils/emitter_utils.py", "    balanced: bool = (s.count(\"[\") + s.count(\"]\")) & 1 == 0\n", "    if \"[\" not in s and \"]\" not in s:\n        return ast.Name(s, ast.Load(), lineno=None, col_offset=None)\n    balanced: bool = (s.count(\"[\") + s.count(\"]\")) & 1 == 0\n")],
+         expect=r"ast_parse_fix/annotation-node-comes-from-the-parser"),
+    dict(name="BENIGN: ast_parse_fix binds the parsed module to a local first", benign=True,
+         edits=[("cdd/shared/emit/utils/emitter_utils.py", "    return ast.parse(s if balanced else \"{}]\".format(s)).body[0].value\n", "    mod = ast.parse(s if balanced else \"{}]\".format(s))\n    return mod.body[0].value\n")]),
 ]
